@@ -35,7 +35,7 @@ type sweepCase struct {
 
 func fixedAuths(login, pass string) [][2]string {
 	tok := b64(login + ":" + pass)
-	return [][2]string{
+	t := [][2]string{
 		{"absent", ""}, {"empty", ""},
 		{"right", "Basic " + tok},
 		{"right-junk", "Basic " + tok + "!"}, {"right-junk", "Basic " + tok + ", Bearer x"}, {"right-junk", "Basic " + tok + "===="},
@@ -51,6 +51,21 @@ func fixedAuths(login, pass string) [][2]string {
 		{"bad-base64", "Basic !!!!"}, {"bad-base64", "Basic " + login + ":" + pass},
 		{"unpadded", "Basic " + strings.TrimRight(tok, "=")}, {"spacing", "Basic  " + tok}, {"spacing", " Basic " + tok},
 	}
+	// index-stable table above (sweepRequests refers to positions); appended: the
+	// concatenation cut elsewhere, and one colon moved
+	whole := login + pass
+	for _, k := range []int{0, 1, len(login) - 1, len(login) + 1, len(whole) - 1, len(whole)} {
+		if k >= 0 && k <= len(whole) && k != len(login) {
+			t = append(t, [2]string{"resplit", "Basic " + b64(whole[:k]+":"+whole[k:])})
+		}
+	}
+	t = append(t, [2]string{"resplit-swapped", "Basic " + b64(pass+login+":")}, [2]string{"resplit-swapped", "Basic " + b64(pass[:1]+":"+pass[1:]+login)})
+	for i, v := range ColonMoves(login, pass) {
+		if i%7 == 0 { // a spread of them; the header check draws all
+			t = append(t, [2]string{"colon-moved", "Basic " + b64(v)})
+		}
+	}
+	return t
 }
 
 // sweepOrigins: Origin header variants against sweepCors[2] (a list): listed, unlisted,
